@@ -32,6 +32,31 @@ from core import common as C  # noqa: E402
 sys.path.insert(0, C.REPO)
 
 
+class _CaseTimeout(BaseException):
+    pass
+
+
+class _deadline:
+    """SIGALRM-based wall-clock limit for one implementation case (main thread only)"""
+
+    def __init__(self, seconds):
+        self.seconds = seconds
+
+    def _raise(self, *_a):
+        raise _CaseTimeout()
+
+    def __enter__(self):
+        import signal
+        self._old = signal.signal(signal.SIGALRM, self._raise)
+        signal.alarm(self.seconds)
+
+    def __exit__(self, *a):
+        import signal
+        signal.alarm(0)
+        signal.signal(signal.SIGALRM, self._old)
+        return False
+
+
 def budget(P, tier: str, search: bool = False) -> int:
     b = getattr(P, "BUDGET", {"quick": 300, "thorough": 5000, "search": 3000})
     if search:
@@ -46,11 +71,23 @@ def run_cases(P, cases, driver, use_model=True):
     case, obs, model, diffs, failures, nontrivial, features.
     """
     obs_list = []
+    # a case that does not return (a simulator that loops forever, a search that never converges) is a
+    # behaviour of the implementation, not an infrastructure problem: it is cut off and reported as a failure
+    # of that case; after a few of them the remaining cases are skipped so that the check still ends
+    limit = int(os.environ.get("VERIF_CASE_TIMEOUT", getattr(P, "CASE_TIMEOUT", 300)))
+    timeouts = 0
     for c in cases:
+        if timeouts >= 3:
+            obs_list.append({"__skipped__": "earlier cases did not terminate"})
+            continue
         try:
-            with warnings.catch_warnings():
+            with warnings.catch_warnings(), _deadline(limit):
                 warnings.simplefilter("ignore")
                 obs_list.append(P.run_impl(c))
+        except _CaseTimeout:
+            timeouts += 1
+            obs_list.append({"__harness_exception__": f"Timeout: the implementation did not finish this case within {limit} s "
+                                                       f"(non-termination?)", "__tb__": None, "__timeout__": True})
         except Exception as e:  # an exception the harness did not classify
             obs_list.append({"__harness_exception__": f"{type(e).__name__}: {e}", "__tb__": traceback.format_exc()[-1500:]})
     model_list = [None] * len(cases)
@@ -58,6 +95,8 @@ def run_cases(P, cases, driver, use_model=True):
         idx = []
         reqs = []
         for i, (c, o) in enumerate(zip(cases, obs_list)):
+            if isinstance(o, dict) and ("__skipped__" in o or "__harness_exception__" in o):
+                continue
             r = P.model_request(c, o) if P.model_request.__code__.co_argcount >= 2 else P.model_request(c)
             if r is not None:
                 idx.append(i)
@@ -68,8 +107,14 @@ def run_cases(P, cases, driver, use_model=True):
     records = []
     for c, o, m in zip(cases, obs_list, model_list):
         rec = {"case": c, "obs": o, "model": m, "diffs": [], "failures": []}
+        if "__skipped__" in (o if isinstance(o, dict) else {}):
+            rec["nontrivial"] = False
+            rec["features"] = ["skipped:after-timeouts"]
+            records.append(rec)
+            continue
         if "__harness_exception__" in (o if isinstance(o, dict) else {}):
-            rec["failures"].append({"kind": "implementation_exception", "detail": o["__harness_exception__"], "tb": o.get("__tb__")})
+            rec["failures"].append({"kind": "implementation_timeout" if o.get("__timeout__") else "implementation_exception",
+                                    "detail": o["__harness_exception__"], "tb": o.get("__tb__")})
         else:
             try:
                 rec["failures"] = list(P.oracle(c, o))
@@ -313,17 +358,23 @@ def main() -> int:
     if violations:
         # smallest case first
         violations.sort(key=lambda rf: len(json.dumps(rf[0]["case"], default=str)))
+        any_timeout = any(f["kind"] == "implementation_timeout" for _r, f in violations)
+        shrink_deadline = time.time() + int(os.environ.get("VERIF_SHRINK_TIMEOUT", 180))
         seen_kinds = set()
         for r, f in violations:
             if f["kind"] in seen_kinds:
                 continue
             seen_kinds.add(f["kind"])
             case = r["case"]
-            if hasattr(P, "shrink"):
+            # shrinking re-runs the implementation: never when some case did not terminate, and within one
+            # global wall-clock budget otherwise
+            left = int(shrink_deadline - time.time())
+            if hasattr(P, "shrink") and not any_timeout and left > 1:
                 try:
-                    case = P.shrink(case, f["kind"])
-                except Exception:
-                    pass
+                    with _deadline(left):
+                        case = P.shrink(case, f["kind"])
+                except (_CaseTimeout, Exception):
+                    case = r["case"]
             path = C.write_replay(pid, {
                 "property": pid, "what": f, "case": case, "obs": r["obs"] if case is r["case"] else None,
                 "model": r["model"] if case is r["case"] else None,
